@@ -114,6 +114,17 @@ def check(ctx, path, pages, selected):
     return out
 
 
+def replay(case):
+    ctx = new_ctx()
+    d = scratch_dir("c12r")
+    try:
+        res = check(ctx, os.path.join(d, "x.xml.bz2"), case["pages"], case["selected"])
+    finally:
+        close_ctx(ctx)
+        shutil.rmtree(d, ignore_errors=True)
+    return [{"oracle": o, "observed": ob, "expected": ex} for o, ob, ex in res]
+
+
 def ns_table(ctx):
     return {d["id"]: d["name"] for d in ctx.NAMESPACE_DATA.values()}
 
@@ -220,4 +231,4 @@ def main(run):
         "dump titles carry their namespace prefix (as real dumps do); init_interwiki_map (network) is not part of the property",
         "a raw CR in XML is normalised by any XML parser, so CR is written as &#13;",
     ]
-    return run.finish(cov, assumptions, replay_fn=None)
+    return run.finish(cov, assumptions, replay_fn=replay)
